@@ -1,7 +1,7 @@
 (* C06 witnesses: the full statements fail on the model of the code as it is (vm_compute), and the
    hypotheses of the theorems are inhabited. *)
 From Coq Require Import List Bool Arith.
-From PAFC06 Require Import Model Proofs Proofs2 Proofs3 Gen Naming Naming2.
+From PAFC06 Require Import Model Proofs Proofs2 Proofs3 Raise Gen Naming Naming2.
 Import ListNotations.
 
 Definition cD : cfg := mkcfg Drawer 0 false false true false.    (* Drawer, folder kept, no samples table *)
@@ -222,3 +222,36 @@ Proof. exists [S_ "x.zip"], [S_ "x"]. split; [vm_compute; discriminate|]. split;
   right; left. vm_compute. reflexivity. Qed.
 Example illegal_name : legalb [S_ "x.zip"] = false /\ legalb [S_ "x.zip.tmp"] = false /\ legalb [] = false.
 Proof. vm_compute. repeat split. Qed.
+
+(* ---------- death by a propagating exception (Raise.v) ---------- *)
+(* number of mutations performed when Analysis.save_results is entered (its first mutation is the write of its json) *)
+Definition at_save_results (cd : code) (c : cfg) : nat :=
+  index_of (is_w (jtmp ResultExtra)) (plan_ops cd c 0 [] empty_fs).
+
+(* the variant with paths.completed() inside a `finally` around the result hooks: an exception raised on entry of
+   save_results leaves `.completed` without the result file, the re-run believes it and the file is missing for good *)
+Example marker_in_finally_refuted :
+  let s := xhistory (mkhandlers true) repaired cD 0 [([], Some (Raised (at_save_results repaired cD)))] empty_fs in
+  eff_dir s Marker = Full Plain /\ fd s ResultExtra = Absent /\ storedb cD 0 s = false /\
+  let s2 := xhistory (mkhandlers true) repaired cD 1 [([], None); ([], None)] s in
+  fd s2 ResultExtra = Absent /\ storedb cD 0 s2 = false.
+Proof. vm_compute. repeat split; reflexivity. Qed.
+
+(* the same history with the library's handlers: no marker after the death, the re-run finishes the work (generation 1:
+   the Drawer samples again), the third run finds it *)
+Example exception_death_resumes :
+  let s := xhistory lib_handlers repaired cD 0 [([], Some (Raised (at_save_results repaired cD)))] empty_fs in
+  eff_dir s Marker = Absent /\
+  let s2 := xhistory lib_handlers repaired cD 1 [([], None)] s in
+  eff_dir s2 Marker = Full Plain /\ stored cD 1 s2 /\
+  plan_sampled repaired cD 2 [] s2 = false.
+Proof. vm_compute. repeat split; reflexivity. Qed.
+
+(* non-vacuity of C06_marker_implies_stored: a history with a kill, two exception deaths (one after `.completed`, in
+   modify_after_fit) and runs in between, whose final state holds the marker *)
+Example marker_history_witness :
+  let k := at_save_results repaired cDz in
+  let s := xhistory lib_handlers repaired cDz 0
+             [([], Some (Killed 3 VHalf)); ([], Some (Raised k)); ([], Some (Raised (k + 3))); ([], None)] empty_fs in
+  eff_dir s Marker = Full Plain /\ fx_zip repaired = true.
+Proof. vm_compute. split; reflexivity. Qed.
